@@ -79,7 +79,7 @@ Clauses(o) ==
      (IF o.obs.result = "panic" \/ ~TypeOK(pre) \/ ~TypeOK(post) THEN {}
       \* a directory is refused exactly when a configuration names an issuer nobody defines (the bounded model has no cycles
       \* and no alias collisions) or names the shared profile while its file is gone; a refusal changes nothing (the transition clause)
-      ELSE IF o.obs.result = "refused" /\ ~Refusing(pre, fl) THEN {"refused"}
+      ELSE IF o.obs.result = "refused" /\ ~MayRefuse(pre, fl) THEN {"refused"}
       ELSE IF post \in Successors(pre, a) THEN {} ELSE {"transition"})
   \cup
      \* ---- C10: only the planned artifacts change; nothing else is written, created or deleted
